@@ -12,7 +12,7 @@ import (
 func bootCase(t *testing.T, out *vio.Out, ci int, c tcase, ei int, tau time.Duration) {
 	e := embs[ei]
 	res := runOnce(t, realCfg(c.Cfg, e, tau), e.a*c.Cfg.Drift, tau, 1,
-		errClocks(c.Cfg.Nref), errClocks(c.Cfg.Npeer), nil)
+		errClocks(c.Cfg.Nref), errClocks(c.Cfg.Npeer), nil, nil)
 	if res.panicked && res.rec.touched {
 		t.Fatalf("case %d: sync.Run panicked inside the loop: %s", ci, res.msg)
 	}
@@ -30,7 +30,11 @@ func runCase(t *testing.T, out *vio.Out, ci int, c tcase, ei int) (int, int) {
 	driftPer := e.a * c.Cfg.Drift
 	d := driftPer * c.Cfg.Interval // clk.Drift(cfg.SyncInterval)
 	boot := rec{K: "boot", Case: ci, Emb: ei, Tau: int64(tau), Cfg: c.Cfg, RawOK: true, Exact: true}
-	res := runOnce(t, cfg, driftPer, tau, len(c.Rounds), refs, peers, func(done []observed, pending observed) {
+	el := make([]elapse, len(c.Rounds)) // el[k]: the Sleep call between round k and round k+1
+	for i, m := range c.Rounds {
+		el[i] = elapse{m.Slp, m.Stp}
+	}
+	res := runOnce(t, cfg, driftPer, tau, len(c.Rounds), refs, peers, el, func(done []observed, pending observed) {
 		// the scripted rounds did not complete: everything seen so far, then the
 		// pending round (no Sleep call was reached) flagged as hung
 		out.Emit(boot)
@@ -62,7 +66,8 @@ func emitRounds(out *vio.Out, ci int, c tcase, ei int, d int64, rounds []observe
 	tau := time.Millisecond
 	n, nx := 0, 0
 	for ri, ob := range rounds {
-		r := rec{K: "round", Case: ci, Emb: ei, Tau: int64(tau), Cfg: c.Cfg, Rnd: ri + 1, Ndo: len(ob.dos)}
+		r := rec{K: "round", Case: ci, Emb: ei, Tau: int64(tau), Cfg: c.Cfg, Rnd: ri + 1, Ndo: len(ob.dos),
+			El: ob.el, Slept: ob.slept, Epoch: int64(ob.epoch)}
 		r.RawOK = true
 		for _, x := range ob.dos {
 			if !rawBound(int64(x), c.Cfg.Pi4, d) || (c.Cfg.Npeer == 0 && !rawBound(int64(x), c.Cfg.Ri4, d)) {
@@ -103,6 +108,7 @@ func emitRounds(out *vio.Out, ci int, c tcase, ei int, d int64, rounds []observe
 			m := c.Rounds[ri]
 			r.HasExp = true
 			r.ERo, r.EPo, r.ERc, r.EPc, r.ECorr = m.Ro, m.Po, m.Rc, m.Pc, m.Corr
+			r.ESlp, r.EStp = m.Slp, m.Stp
 		}
 		out.Emit(r)
 		n++
